@@ -100,7 +100,10 @@ fn get_server_values_impl(socket: &mut UdpSocket) -> GDResult<HashMap<String, St
 }
 
 fn extract_players(server_vars: &mut HashMap<String, String>, players_maximum: u32) -> GDResult<Vec<Player>> {
-    let mut players_data: Vec<HashMap<String, String>> = Vec::with_capacity(players_maximum as usize);
+    // The announced player limit can't be trusted as an allocation size, there can't be more
+    // players than entries.
+    let mut players_data: Vec<HashMap<String, String>> =
+        Vec::with_capacity((players_maximum as usize).min(server_vars.len()));
 
     server_vars.retain(|key, value| {
         let split: Vec<&str> = key.split('_').collect();
